@@ -333,7 +333,7 @@ class LintEngine(Engine):
     fault_kinds = ('fault_unparsable_file', 'fault_nonutf8_file', 'fault_worker_death')
     probes = ('interleaved_between_items_and_append', 'completion_order_differs_from_submission',
               'failing_file_finished_first', 'failing_file_finished_last', 'sched_choice_points',
-              'fix_runs', 'overlapping_patterns', 'strict_mode_runs', 'spawned_workers', 'line_level_preemptions',
+              'fix_runs', 'two_phase_runs', 'overlapping_patterns', 'strict_mode_runs', 'spawned_workers', 'line_level_preemptions',
               'worker_death_surfaced_as_exception')
     nontrivial_rule = ('a run is non-trivial if at some scheduling step >=2 actors (main thread, worker tasks) were '
                        'runnable; distinct = distinct event-history digest (start/end/proxy-request/fs events)')
@@ -393,6 +393,9 @@ class LintEngine(Engine):
     def gen(self, g, prop, tier):
         big = tier == 'thorough'
         n = g.randint('nfiles', 1, 12 if big else 8)
+        if g.flip('manyfiles', 1, 6):
+            # more files than any batching/chunking of the submission could hide
+            n = g.randint('nfiles2', 9, 30 if big else 21)
         dirs = ['', 'a', 'a/b', 'c']
         files = []
         for i in range(n):
@@ -427,6 +430,8 @@ class LintEngine(Engine):
             'strict_mode': g.flip('strict', 1, 4),
             'die': {'task': g.choose('dietask', n), 'after': g.choose('dieafter', 4)} if g.flip('die', 1, 6) else None,
             'line_trace': g.flip('linetrace', 1, 3 if big else 10),
+            # one Linter/Reporter used for two lint_files_glob calls (the first serial, the second parallel)
+            'two_phase': inc_choice in ('all', 'split') and g.flip('twophase', 1, 5),
         }
         return scen
 
@@ -524,7 +529,11 @@ class LintEngine(Engine):
         err = None
         count = None
         try:
-            count = self.L.lint_files(self.rules, config, handlers=[Rec(str(tree), tag)])
+            if scenario.get('two_phase'):
+                run.probe('two_phase_runs')
+                count = self._lint_two_phase(config, [Rec(str(tree), tag)])
+            else:
+                count = self.L.lint_files(self.rules, config, handlers=[Rec(str(tree), tag)])
         except (pool.SimDeadlock, pool.SimStepCap) as e:
             err = e
         except Exception as e:  # pylint: disable=broad-except
@@ -542,6 +551,27 @@ class LintEngine(Engine):
         if scenario['violations'] and vf.exists():
             res['viol'] = vf.read_text()
         return res
+
+    def _lint_two_phase(self, config, handlers):
+        """What lint_files does, but with two lint_files_glob calls on one Linter: the first pattern serially,
+        the remaining ones with the configured number of workers."""
+        L = self.L
+        basedir = config['basedir']
+        handlers = list(handlers) + [L.DefaultHandler(basedir=basedir)]
+        if 'junitxml_file' in config:
+            jf = L.LazyTextfile(config['junitxml_file'])
+            handlers.append(L.JunitXmlHandler(target=jf.write, basedir=basedir))
+        if 'violations_file' in config:
+            vf = L.LazyTextfile(config['violations_file'])
+            handlers.append(L.ViolationFileHandler(target=vf.write, basedir=basedir,
+                                                   use_line_hashes=config.get('use_violations_file_line_hashes', True)))
+        linter = L.Linter(reporter=L.Reporter(handlers), rules=self.rules, config=config)
+        kw = {'exclude': config.get('exclude'), 'fix': config.get('fix', False),
+              'backup_suffix': config.get('backup_suffix')}
+        count = L.lint_files_glob(linter, basedir, config['include'][:1], max_workers=1, **kw)
+        count += L.lint_files_glob(linter, basedir, config['include'][1:], max_workers=config.get('max_workers', 1), **kw)
+        linter.reporter.output()
+        return count
 
     def execute(self, scenario, run):
         root = run.scratch
